@@ -143,16 +143,10 @@ Fixpoint nontrivial_from (s : topo) (es : list event) (deep rej : bool) : bool :
 Definition nontrivial_case (inp : list Z) : bool :=
   let '(g, es) := decode inp in nontrivial_from (init_topo g) es false false.
 
-(* shape 1: an update that was admitted UNCHECKED (no checked field differs) switched the
-   allow-force-update / is-root label, the implementation behaves exactly as the model, and the
-   record is no longer a well-formed tree in the min-sum clause (14) — see
-   SpecInf.flag_stable_ev and findings/C15-unchecked-flag-drop.md. Every other failure is 0.
-   (the finding of findings/C15-delete-ignores-namespace-bound-pods.md was repaired by commit
-   4aec535; a deletion with bound pods is clause 21, an ordinary violation) *)
-Definition finding_sig (inp obs : list Z) : Z :=
-  let '(g, es) := decode inp in
-  if negb (forallb flag_stable_ev es) && (prop_case inp obs =? 14) && eq_listZ (run_case inp) obs
-  then 1 else 0.
+(* no known finding is open: findings/C15-delete-ignores-namespace-bound-pods.md was repaired by
+   commit 4aec535 (clause 21 is an ordinary violation) and findings/C15-unchecked-flag-drop.md by
+   adding the two exempting labels to quotaFieldsCopy (clause 14 is an ordinary violation) *)
+Definition finding_sig (inp obs : list Z) : Z := 0.
 
 Require Extraction.
 Require Import ExtrOcamlBasic.
